@@ -120,6 +120,13 @@ class Taint:
                 for t in self.prog.call_targets(c):
                     if t.path in self.ret_taint:
                         s.add(c.dst[0])
+        # the content of an event's `h` tag is the hex Nostr group id (before it is decoded, refused or looked up)
+        if any(c.name == "content" and last_seg(c.self_adt) == "Tag" for c in f.calls()):
+            root = self.prog.fns.get(f.root, f)
+            if any(x.name == "h" and last_seg(x.self_adt) == "TagKind" for g in self.prog.family(root) for x in g.calls()):
+                for c in f.calls():
+                    if c.name == "content" and last_seg(c.self_adt) == "Tag" and c.dst and len(c.dst) == 1:
+                        s.add(c.dst[0])
         # locals named like an identifier / secret (parameters such as `nostr_group_id: [u8; 32]`)
         for name, pl in f.debug:
             if len(pl) == 1 and name in SENSITIVE_FIELDS | {"exporter_secret", "snapshot_name"}:
